@@ -328,8 +328,8 @@ def opForwarder (j : Json) : R Json := do
     `req id epoch` (fe.call), `loss` (reconn.begin), `swap` (rc.swap), `write epoch` (the response writer
     wrote), `stale epoch` (it discarded), `done id epoch` (h.done, keep = false), `cancel id` (fe.cancel).
     The epoch the code read must be the model's connection count; a response is written iff its
-    request's epoch is the current one.  A request executed between the sweep and the swap (read from
-    the old connection, executed late) is outside the model and skipped together with its return. -/
+    request's epoch is the current one.  A request executed after its connection ended (read from the old
+    connection, still queued at the sweep) is the model's `reqLate`. -/
 def opEpoch (j : Json) : R Json := do
   let mut s : Epoch.St := {}
   let mut late : List (Nat × Nat) := []
@@ -343,8 +343,11 @@ def opEpoch (j : Json) : R Json := do
       let k ← nat e "epoch"
       if k > s.epoch then
         return refuse i s!"handleCall read connection epoch {k} while only {s.epoch} connections had been replaced"
-      -- (k < s.epoch: a frame of an earlier connection executed after the swap; its hook ran late)
-      if s.down || k < s.epoch then late := (id, k) :: late
+      -- a frame of a connection that has ended (or is being replaced), executed late: the model's `reqLate`
+      if s.down || k < s.epoch then
+        match Epoch.step? true s (.reqLate id k) with
+        | some s' => s := s'
+        | none => return refuse i s!"late request {id} of epoch {k} refused"
       else match Epoch.step? true s (.req id) with
         | some s' => s := s'
         | none => return refuse i s!"request id {id} is already being handled on this connection"
